@@ -74,6 +74,18 @@ def deductive(rep: Report, prop: str, funcs: list[str], contracts_mod: str, incl
                 from . import replay as _rp
 
                 info = _rp.replay_obligation(ob, contracts_mod)
+                if not info.get("replayed") and sum(1 for v in rep.replays.values() if v.get("api_witness_tried")) < 2 and not getattr(rep, "_cand_witness_tried", {}).get(q):
+                    # the lifted function-level state did not reproduce it: look for a document on which the same contract
+                    # clause fires at a real call (run-time monitor over the bounded universe)
+                    rep.__dict__.setdefault("_cand_witness_tried", {})[q] = True
+                    try:
+                        w = _rp.api_witness(prop, q)
+                    except Exception:  # noqa: BLE001
+                        w = None
+                    if w and (lab in (w.get("what") or "")):
+                        info["api_witness"] = w
+                        info["api_witness_tried"] = True
+                        info["replayed"] = True
                 if info.get("replayed"):
                     ob.verdict = "failed"
                     rep.replays[f"{prop}/{ob.oid}"] = info
